@@ -73,6 +73,8 @@ def scenario(big: bool = False) -> Any:
         "msgs": st.lists(msg, min_size=0, max_size=12 if big else 7),
         "stop": cm.times(60), "has_stop": st.booleans(),
         "park": st.sampled_from([False, False, False, True]),
+        # what the broker's listen() does when its pending fetch gets cancelled at the stop: nothing, a clean-up round trip of 3 s / 20 s, or a failure
+        "cancel_cleanup": st.sampled_from([None, None, None, 3.0, 20.0, "raise"]),
         "staggered": st.fixed_dictionaries({"on": st.sampled_from([False, False, False, True]), "k": st.integers(1, 3),
                                             "never": st.booleans(), "stop": st.sampled_from([0.05, 0.3, 0.35])}),
     }).map(fin)
